@@ -55,6 +55,11 @@ def init(ctx):
     common.setup_repo_path()
 
 
+# index names that are not a column of the table ("same index": the name comes back as it went in);
+# several are substrings of 'frame' / 'particle'
+OTHER_INDEX_NAMES = ["feature_id", "am", "f", "me", "fra", "art", "id", "ram", "x_index", "e"]
+
+
 def gen_cases(ctx):
     for inp in ctx.corpus():
         yield inp
@@ -348,7 +353,7 @@ def run_table_case(ctx, inp):
     elif kind == "named_frame":
         df.index = pd.Index(df["frame"].values.copy(), name="frame")
     elif kind == "named_other":
-        df.index = pd.Index(range(n), name="feature_id")
+        df.index = pd.Index(range(n), name=rr.choice(OTHER_INDEX_NAMES))
     before = df.copy(deep=True)
     kw = dict(memory=inp["memory"])
     if inp.get("default_cols") and dim >= 2:
@@ -391,6 +396,9 @@ def run_table_case(ctx, inp):
             msg = "rows are not ordered by frame"
         if msg is None and list(out.columns) != list(df.columns) + ["particle"]:
             msg = "columns changed: %s" % list(out.columns)
+        # an index called like the frame column cannot keep its name (pandas: ambiguous), any other can
+        if msg is None and df.index.name != "frame" and out.index.name != df.index.name:
+            msg = "index name changed: %r -> %r" % (df.index.name, out.index.name)
         if msg is None:
             def keyrows(d, withidx):
                 ks = []
@@ -464,7 +472,7 @@ def run_itable_case(ctx, inp):
         elif kind == "named_frame":
             df.index = pd.Index(df["frame"].values.copy(), name="frame")
         elif kind == "named_other":
-            df.index = pd.Index(range(n), name="feature_id")
+            df.index = pd.Index(range(n), name=OTHER_INDEX_NAMES[inp["row_seed"] % len(OTHER_INDEX_NAMES)])
         dfs.append(df)
     before = [d.copy(deep=True) for d in dfs]
     spy = _LinkIterSpy()
